@@ -804,12 +804,55 @@ _NP_FUNCS = dict(
     swapaxes=lambda a, i, j: _swapaxes(a, i, j),
     repeat=lambda a, repeats, axis=None: _repeat(a, repeats, axis),
     take=lambda a, indices, axis=None, **k: _take(a, indices, axis),
+    diagonal=lambda a, offset=0, axis1=0, axis2=1: _diagonal(a, offset, axis1, axis2),
+    diag=lambda v, k=0: _diag(v, k),
     can_cast=lambda from_, to, casting="safe": np.can_cast(from_.dtype if isinstance(from_, SArr) and from_.dtype is not None else np.float64, to, casting=casting),
     empty_like=lambda a, dtype=None, order="K", subok=True, shape=None: _empty_like(a, shape),
     sliding_window_view=lambda x, window_shape, axis=None, **k: _sliding_window_view(x, window_shape, axis),
     cumsum=lambda a, axis=None, dtype=None, out=None: a.accumulate(axis, "add"),
     sum=lambda a, axis=None, dtype=None, out=None, keepdims=False, **k: a.reduce_axis(axis, "add", keepdims),
 )
+
+
+def _diagonal(a, offset=0, axis1=0, axis2=1):
+    """np.diagonal: out[..., t] = a[.., t + max(0,-k) (axis1), .., t + max(0,k) (axis2), ..]; the other axes keep their order"""
+    axis1, axis2 = int(axis1) % a.ndim, int(axis2) % a.ndim
+    if axis1 == axis2:
+        raise ValueError("axis1 and axis2 cannot be the same")
+    k = offset
+    r0 = core._ite(k < 0, -k, 0) if isinstance(k, SymInt) else max(0, -k)
+    c0 = core._ite(k > 0, k, 0) if isinstance(k, SymInt) else max(0, k)
+    n1, n2 = a.shape[axis1] - r0, a.shape[axis2] - c0
+    ln = core._ite(n1 < n2, n1, n2)
+    ln = core._ite(ln < 0, 0, ln)
+    rest = [j for j in range(a.ndim) if j not in (axis1, axis2)]
+    shape = [a.shape[j] for j in rest] + [ln]
+
+    def at(idx, a=a, rest=tuple(rest), r0=r0, c0=c0):
+        pos = [None] * a.ndim
+        for q, j in enumerate(rest):
+            pos[j] = idx[q]
+        pos[axis1] = idx[-1] + _z(r0)
+        pos[axis2] = idx[-1] + _z(c0)
+        return a._at(tuple(pos))
+
+    return a._derive(shape, at)
+
+
+def _diag(v, k=0):
+    """np.diag: the k-th diagonal of a 2-d array, or the 2-d array with the 1-d input on its k-th diagonal"""
+    if v.ndim == 2:
+        return _diagonal(v, k)
+    if v.ndim != 1:
+        raise ValueError("Input must be 1- or 2-d.")
+    n = v.shape[0] + (abs(k) if not isinstance(k, SymInt) else core._ite(k < 0, -k, k))
+    r0 = max(0, -k) if not isinstance(k, SymInt) else core._ite(k < 0, -k, 0)
+
+    def at(idx, v=v, k=k, r0=r0):
+        i, j = idx
+        return z3.If(j - i == _z(k), v._at((i - _z(r0),)), z3.RealVal(0))
+
+    return v._derive((n, n), at)
 
 
 _EMPTY = [0]
